@@ -3,6 +3,7 @@ import os, multiprocessing as mp, time, traceback
 
 WORKERS = int(os.environ.get("VP_WORKERS", "0")) or min(16, os.cpu_count() or 4)
 _POOL = None
+_DEAD = []
 
 
 def _wrap(args):
@@ -71,6 +72,9 @@ def _kill_pool():
     global _POOL
     pool, _POOL = _POOL, None
     if pool is not None:
+        # the object must never be finalised: Pool's finaliser runs the orderly shutdown, which blocks for ever on the queue lock
+        # a killed worker was holding
+        _DEAD.append(pool)
         for p in list(getattr(pool, "_pool", [])):
             try:
                 p.kill()
